@@ -18,7 +18,7 @@ RULE = ('case = (text over the adversarial alphabet, line ending, final newline,
         'verified by one oracle; non-trivial text = contains a line needing dash-escape, a trailing blank, an empty line or non-ASCII; distinct = distinct texts (digest)')
 ASSUMPTIONS = ['vf.ref.armor cleartext canonicalisation follows RFC 4880 7.1 (trailing SP/TAB removed, CRLF line endings, last line ending not signed)',
                'a lone CR is not treated as a line ending (RFC 4880 does not define it as one)']
-MIN_COUNTERS = {'quick': {'texts': 700, 'pgpy_made_read_back': 700, 'pgpy_made_ref_verified': 600, 'ref_made_pgpy_verified': 600, 'dash_lines_checked': 500},
+MIN_COUNTERS = {'quick': {'texts': 700, 'pgpy_made_read_back': 700, 'pgpy_made_ref_verified': 600, 'ref_made_pgpy_verified': 600, 'dash_lines_checked': 500, 'cosign_steps': 25},
                 'thorough': {'texts': 20000}}
 BUDGET = {'quick': (600, 1500), 'thorough': (1800, 3600)}
 TECHNIQUE = 'runtime monitoring: differential reference-model monitor (independent cleartext framework + verifier) + GnuPG second oracle'
@@ -52,6 +52,10 @@ def cases(tier, seed):
         cs.append({'t': 'texts', 'texts': texts[i:i + B], 'eol': ['\n', '\r\n'][(i // B) % 2], 'text_eol': ['\n', '\n', '\r\n'][(i // B) % 3], 'final': (i // B) % 3 != 0,
                    'hash': list(sigwork.HASHES)[(i // B) % 6],
                    'signers': SIGNERS[(i // B) % 4:(i // B) % 4 + 1 + ((i // B) % 5 == 0)]})
+    hs = list(sigwork.HASHES)
+    for j in range(12 if tier == 'quick' else 200):
+        n = 2 + j % 2
+        cs.append({'t': 'cosign', 'start': ['pgpy', 'ref'][j % 2], 'signers': [SIGNERS[(j + x) % 4] for x in range(n)], 'hashes': [hs[(j + 2 * x + (x > 0)) % len(hs)] for x in range(n)]})
     if gpgx.available():
         cs.append({'t': 'gpg', 'n': 12 if tier == 'quick' else 60, 'seed': seed})
     return cs
@@ -101,7 +105,67 @@ def run_case(ctx, d):
         warnings.simplefilter('ignore')
         if d['t'] == 'gpg':
             return _gpg(ctx, d, pgpy)
+        if d['t'] == 'cosign':
+            return _cosign(ctx, d, pgpy)
         _texts(ctx, d, pgpy)
+
+
+def _hash_header(text):
+    """hash names announced by the Hash: armor header lines of a cleartext signed message"""
+    names = set()
+    lines = text.replace('\r\n', '\n').split('\n')
+    for l in lines[1:]:
+        if l == '':
+            break
+        if l.startswith('Hash:'):
+            names |= {x.strip() for x in l[5:].split(',') if x.strip()}
+    return names
+
+
+def _cosign(ctx, d, pgpy):
+    """signatures added one after the other with differing hash algorithms, also to a message that was read in (written by PGPy or by the reference):
+    after every step the Hash: header announces every digest in use, the text is unchanged and every signature verifies (reference and PGPy)"""
+    from pgpy.constants import HashAlgorithm
+    text = 'co-signed text\n- with a dash line \nand trailing blanks  \nlast'
+    order = d['signers']
+    hashes = d['hashes']
+    keys = [sigwork.signer_key(s_) for s_ in order]
+    mats = [pool.mat(s_) for s_ in order]
+    where = {'signers': order, 'hashes': hashes, 'start': d['start']}
+    if d['start'] == 'pgpy':
+        m = pgpy.PGPMessage.new(text, cleartext=True)
+        m |= keys[0].sign(m, hash=getattr(HashAlgorithm, hashes[0]))
+        cur = str(m)
+    else:
+        cur = ref_make_cleartext(text, mats[:1], sigwork.HASHES[hashes[0]], '\n')
+    for n in range(1, len(order) + 1):
+        ctx.count('evaluations')
+        ctx.count('cosign_steps')
+        used = set(hashes[:n])
+        ann = _hash_header(cur)
+        if not used <= ann and used != {'MD5'}:
+            ctx.fail('hash-header-missing-or-wrong', dict(where, step=n, announced=sorted(ann), used=sorted(used)))
+        try:
+            rlines, rres, rd = ref_verify_cleartext(cur, mats[:n])
+            if '\n'.join(rlines) != text:
+                ctx.fail('reference-reads-different-text', dict(where, step=n, got='\n'.join(rlines)[:120]))
+            if len(rres) != n or not all(ok for ok, _ in rres):
+                ctx.fail('reference-rejects-pgpy-cleartext-signature', dict(where, step=n, results=[w for ok, w in rres if not ok][:3], count=len(rres)))
+            else:
+                ctx.count('pgpy_made_ref_verified')
+        except wire.Malformed as e:
+            ctx.fail('reference-cannot-read-pgpy-cleartext-message', dict(where, step=n, err=str(e)))
+        m = pgpy.PGPMessage.from_blob(cur)
+        if m.message != text:
+            ctx.fail('text-read-back-differs', dict(where, step=n, got=m.message[:120]))
+        for k in keys[:n]:
+            res, _ = sigwork.pgpy_verify(k.pubkey, m)
+            if res != 'true':
+                ctx.fail('cleartext-signature-fails-after-read-back', dict(where, step=n, result=res))
+        if n < len(order):
+            m |= keys[n].sign(m, hash=getattr(HashAlgorithm, hashes[n]))
+            cur = str(m)
+    ctx.nontrivial(d)
 
 
 def _texts(ctx, d, pgpy):
